@@ -54,7 +54,7 @@ let () =
         ri := v r; nb := v b; bump "cases"
       | [ "I"; k; s; ty; v ] ->
         Hashtbl.replace seq_str (k ^ "/" ^ s) s;
-        items := { ukey = bytes_of_hex k; seq = n_of_string s; ty = ty_of_code ty; val0 = bytes_of_hex v } :: !items
+        items := { ukey = bytes_of_hex k; seq0 = n_of_string s; ty = ty_of_code ty; val0 = bytes_of_hex v } :: !items
       | [ "HK"; k; h ] -> Hashtbl.replace hashes k (n_of_string h)
       | [ "BYTES"; hx ] ->
         let its = List.rev !items in
@@ -85,7 +85,7 @@ let () =
         (* (1) the property: the first item with that key and seqno < S *)
         let want = newest k' s' !items in
         let show = function None -> "." | Some e ->
-          let ss = (match e.seq with N0 -> "0" | _ -> string_of_int (int_of_n e.seq)) in show_entry e ss in
+          let ss = (match e.seq0 with N0 -> "0" | _ -> string_of_int (int_of_n e.seq0)) in show_entry e ss in
         if show want <> res then fail "point-read" (Printf.sprintf "key=%s S=%s crate=%s spec=%s" k s res (show want));
         (* (2) model agreement on the crate's bytes *)
         let m = point_read hash !bytes k' s' in
